@@ -3253,6 +3253,14 @@ class SEVM:
                             cond = dst.as_z3() == target
                             new_ex = self.create_branch(ex, cond, target)
                             stack.push(new_ex)
+
+                        # the remaining inputs jump to an invalid destination
+                        invalid_cond = And(
+                            *[dst.as_z3() != target for target in reachable_targets]
+                        )
+                        if ex.check(invalid_cond) != unsat:
+                            ex.path.append(invalid_cond, branching=True)
+                            raise InvalidJumpDestError(dst)
                     else:
                         raise NotConcreteError(f"symbolic JUMP target: {dst}")
 
